@@ -267,6 +267,8 @@ pub enum Kind {
     DropLast,
     DropMid,
     Append,
+    /// extend the proof to 31 / 32 / 33 / 40 elements (the positional verifier documents a bound of 32 levels)
+    AppendMany,
     Insert,
     RootBit,
     OtherRoot,
@@ -288,6 +290,7 @@ impl Kind {
             Kind::DropLast => "proof-drop-last",
             Kind::DropMid => "proof-drop-middle",
             Kind::Append => "proof-append",
+            Kind::AppendMany => "proof-append-many",
             Kind::Insert => "proof-insert",
             Kind::RootBit => "root-bit-flip",
             Kind::OtherRoot => "other-root",
@@ -303,10 +306,10 @@ impl Kind {
         matches!(self, Kind::IdxPlus1 | Kind::IdxMinus1 | Kind::IdxFlip | Kind::IdxHigh | Kind::IdxOther)
     }
     fn is_proof_only(self) -> bool {
-        matches!(self, Kind::ProofBit | Kind::Swap | Kind::DropFirst | Kind::DropLast | Kind::DropMid | Kind::Append | Kind::Insert)
+        matches!(self, Kind::ProofBit | Kind::Swap | Kind::DropFirst | Kind::DropLast | Kind::DropMid | Kind::Append | Kind::AppendMany | Kind::Insert)
     }
 }
-const COMMON_KINDS: [Kind; 12] = [
+const COMMON_KINDS: [Kind; 13] = [
     Kind::LeafBit,
     Kind::NonMember,
     Kind::ProofBit,
@@ -315,13 +318,14 @@ const COMMON_KINDS: [Kind; 12] = [
     Kind::DropLast,
     Kind::DropMid,
     Kind::Append,
+    Kind::AppendMany,
     Kind::Insert,
     Kind::RootBit,
     Kind::OtherRoot,
     Kind::ProofOf,
 ];
 const INDEX_KINDS: [Kind; 5] = [Kind::IdxPlus1, Kind::IdxMinus1, Kind::IdxFlip, Kind::IdxHigh, Kind::IdxOther];
-const PROOF_KINDS: [Kind; 7] = [Kind::ProofBit, Kind::Swap, Kind::DropFirst, Kind::DropLast, Kind::DropMid, Kind::Append, Kind::Insert];
+const PROOF_KINDS: [Kind; 8] = [Kind::ProofBit, Kind::Swap, Kind::DropFirst, Kind::DropLast, Kind::DropMid, Kind::Append, Kind::AppendMany, Kind::Insert];
 
 /// A corruption: kind + raw parameters resolved against the tree at run time.
 #[derive(Clone, Debug, Serialize, Deserialize)]
@@ -390,6 +394,15 @@ fn corrupt_proof(kind: Kind, proof: &[H32], root: &H32, leaf: &H32, a: u16, b: u
         Kind::Append => {
             let x = extra(&p);
             p.push(x);
+        }
+        Kind::AppendMany => {
+            let target = [31usize, 32, 33, 40][pick(a, 4)];
+            let mut k = 0u32;
+            while p.len() < target {
+                let x = if k == 0 { extra(&p) } else { derive(r, "extra-many", k) };
+                p.push(x);
+                k += 1;
+            }
         }
         Kind::Insert => {
             let x = extra(&p);
